@@ -8,11 +8,11 @@ tier="${1:-quick}"; shift || true
 ids=("$@"); [ ${#ids[@]} -eq 0 ] && ids=(C01 C02 C03 C04 C05 C06 C07 C08 C09 C10 C11 C12 C13 C14 C15 C16 C17 C18 C19 C20)
 BIN=$(dirname "$(rustup which --toolchain nightly rustc)")/../lib/rustlib/x86_64-unknown-linux-gnu/bin
 RAW=/dev/shm/lvh-cov; rm -rf $RAW; mkdir -p $RAW ../coverage
-RUSTFLAGS="-Cinstrument-coverage" cargo +nightly build --offline --profile verif --target-dir target-cov 2>&1 | tail -1
+LLVM_PROFILE_FILE="$RAW/build-%p-%8m.profraw" RUSTFLAGS="-Cinstrument-coverage" cargo +nightly build --offline --profile verif --target-dir target-cov 2>&1 | tail -1
 for id in "${ids[@]}"; do
   LLVM_PROFILE_FILE="$RAW/$id-%p-%8m.profraw" VERIF_EVIDENCE_OUT=/dev/null ./target-cov/verif/lvh run "$id" --tier "$tier" --seed "${VERIF_SEED:-1}" | grep -E "^SUMMARY" | cut -c1-150
 done
-$BIN/llvm-profdata merge -sparse $RAW/*.profraw -o $RAW/all.profdata
+rm -f $RAW/build-*.profraw; $BIN/llvm-profdata merge -sparse $RAW/*.profraw -o $RAW/all.profdata
 $BIN/llvm-cov report ./target-cov/verif/lvh -instr-profile=$RAW/all.profdata --ignore-filename-regex='(\.cargo|rustc|/verif/|tests\.rs|/tests/|target)' 2>/dev/null > ../coverage/summary.txt
 $BIN/llvm-cov show ./target-cov/verif/lvh -instr-profile=$RAW/all.profdata --ignore-filename-regex='(\.cargo|rustc|/verif/|tests\.rs|/tests/|target)' --show-line-counts-or-regions 2>/dev/null > $RAW/show.txt
 # uncovered executable lines, per file
